@@ -15,11 +15,15 @@
 #include <set>
 #include <sstream>
 
+#if defined(__SANITIZE_ADDRESS__)
+#include <sanitizer/lsan_interface.h>
+#endif
 #include "harness.h"
 
 extern "C" {
 __attribute__((used, visibility("default"))) const char* __asan_default_options() {
-  return "exitcode=77:detect_leaks=0:abort_on_error=0:allocator_may_return_null=1:detect_stack_use_after_return=0";
+  // leak detection is armed but never runs by itself: a sampled run asks for one recoverable check after its orderly shutdown
+  return "exitcode=77:detect_leaks=1:leak_check_at_exit=0:abort_on_error=0:allocator_may_return_null=1:detect_stack_use_after_return=0";
 }
 __attribute__((used, visibility("default"))) const char* __ubsan_default_options() {
   return "halt_on_error=1:exitcode=78:print_stacktrace=0";
@@ -129,7 +133,50 @@ void emitResult(const RunResult& r, int fd) {
   writeAll(fd, o.str());
 }
 
+bool g_leakCheck = false;
+
 void finishRun(RunResult* r) {
+#if defined(__SANITIZE_ADDRESS__)
+  if (g_leakCheck && r->verdict == "ok") {
+    // everything the daemon allocated must be freed or still reachable after the orderly shutdown
+    // the report goes to a temporary file: only lost *request* objects are what C20 forbids by its text; other lost
+    // objects are counted and their allocation site is kept for the notes
+    fflush(stderr);
+    FILE* tf = tmpfile();
+    int saved = dup(2);
+    if (tf && saved >= 0) {
+      dup2(fileno(tf), 2);
+      int leaks = __lsan_do_recoverable_leak_check();
+      dup2(saved, 2);
+      close(saved);
+      if (leaks != 0) {
+        std::string rep;
+        char buf[4096];
+        rewind(tf);
+        size_t n;
+        while ((n = fread(buf, 1, sizeof(buf), tf)) > 0 && rep.size() < 200000) rep.append(buf, n);
+        // a lost request object: a direct leak whose innermost allocation frames are where ebusd creates requests
+        bool request = false;
+        for (size_t at = rep.find("Direct leak"); at != std::string::npos; at = rep.find("Direct leak", at + 1)) {
+          size_t f1 = rep.find("#1 ", at), f4 = rep.find("#4 ", at);
+          if (f1 == std::string::npos) continue;
+          std::string frames = rep.substr(f1, (f4 == std::string::npos ? rep.size() : rep.find('\n', f4)) - f1);
+          static const char* sites[] = {"RequestImpl", "PollRequest", "ScanRequest", "ActiveBusRequest", "BusRequest", "Connection::run", "Network::run", "notifyProtocolStatus", "prepareScan", "readFromBus"};
+          for (const char* st : sites) if (frames.find(st) != std::string::npos) request = true;
+        }
+        if (request) {
+          r->violate("C20", "leak", "request object lost at orderly shutdown", rep.substr(0, 1500));
+        } else {
+          sim::count("l3.leak_other_than_request");
+          size_t a = rep.find("#1 ");
+          if (a != std::string::npos) fprintf(stderr, "LEAK-NOTE %s\n", rep.substr(a, rep.find('\n', a) - a).substr(0, 300).c_str());
+        }
+      }
+    }
+    if (tf) fclose(tf);
+    sim::count("l3.leak_checks");
+  }
+#endif
   r->hash = sim::traceHash();
   r->steps = sim::steps();
   r->switches = sim::contextSwitches();
